@@ -16,6 +16,7 @@ import shutil
 import subprocess
 import sys
 import tempfile
+import threading
 import time
 
 VERIF = os.path.dirname(os.path.dirname(os.path.abspath(__file__)))
@@ -26,6 +27,9 @@ GO_CANDIDATES = [
     "/root/go/pkg/mod/golang.org/toolchain@v0.0.1-go1.26.5.linux-amd64/bin/go",
 ]
 NCPU = os.cpu_count() or 4
+
+
+_SPEC_DIR_LOCK = threading.Lock()
 
 
 class MachineryError(Exception):
@@ -365,13 +369,17 @@ class Ctx:
     def spec_dir(self, module_dir):
         """Copy /verif/tla/<module_dir> into scratch (tools litter)."""
         dst = os.path.join(self.scratch, "tla_" + module_dir.replace("/", "_"))
-        if not os.path.exists(dst):
-            shutil.copytree(os.path.join(VERIF, "tla", module_dir), dst)
-            common = os.path.join(VERIF, "tla", "common")
-            if os.path.isdir(common):
-                for f in os.listdir(common):
-                    if not os.path.exists(os.path.join(dst, f)):
-                        shutil.copy(os.path.join(common, f), dst)
+        with _SPEC_DIR_LOCK:      # checks run several small TLC jobs from threads
+            if not os.path.exists(dst):
+                tmp = dst + ".copying"
+                shutil.rmtree(tmp, ignore_errors=True)
+                shutil.copytree(os.path.join(VERIF, "tla", module_dir), tmp)
+                common = os.path.join(VERIF, "tla", "common")
+                if os.path.isdir(common):
+                    for f in os.listdir(common):
+                        if not os.path.exists(os.path.join(tmp, f)):
+                            shutil.copy(os.path.join(common, f), tmp)
+                os.rename(tmp, dst)
         return dst
 
     def tlc(self, module_dir, spec, cfg, workers=None, timeout=900, args=(),
